@@ -369,7 +369,7 @@ def rule_literal_provenance(ctx, kind=None):
                     s.loc(),
                 )
     r.floor(n, 12 if kind is None else 4, "arg_to_lit / assignment_to_extension sites in the static solvers")
-    r.floor(n_res, 9 if kind is None else 3, "sites whose provenance is resolved")
+    r.floor(n_res, 9 if kind is None else (1 if kind == "extension" else 3), "sites whose provenance is resolved")
 
 
 # ------------------------------------------------------------------------------------------
